@@ -100,12 +100,21 @@ impl View {
     /// Direct candidates (auto-correct entry or dictionary match of the word itself) among the list, as middle parts.
     pub fn direct_middles(&self, list: &[String]) -> Vec<String> {
         let mut out = vec![];
-        for (x, c) in list.iter().zip(&self.classes) {
+        let dictish = |c: &Class| matches!(c, Class::Explained(w) if w.iter().any(|y| y.key().is_some()) && !w.iter().any(|y| matches!(y, Why::Translit)));
+        for (i, (x, c)) in list.iter().zip(&self.classes).enumerate() {
             if let Class::Explained(w) = c {
-                if w.iter().any(|y| matches!(y, Why::AutoCorrect | Why::Dict(_))) {
-                    if let Some(m) = x.strip_prefix(self.pre.as_str()).and_then(|r| r.strip_suffix(self.post.as_str())) {
-                        out.push(m.to_string());
-                    }
+                if !w.iter().any(|y| matches!(y, Why::AutoCorrect | Why::Dict(_))) {
+                    continue;
+                }
+                // A candidate that is also the plain transliteration may be on the list only as such (riti does not look up
+                // words starting with an upper-case letter). It counts as a dictionary match when it is ranked among the
+                // dictionary words, i.e. another dictionary-class candidate follows it, or when it is the auto-correct entry.
+                let ambiguous = w.iter().any(|y| matches!(y, Why::Translit)) && !w.iter().any(|y| matches!(y, Why::AutoCorrect));
+                if ambiguous && !self.classes[i + 1..].iter().any(dictish) {
+                    continue;
+                }
+                if let Some(m) = x.strip_prefix(self.pre.as_str()).and_then(|r| r.strip_suffix(self.post.as_str())) {
+                    out.push(m.to_string());
                 }
             }
         }
